@@ -260,13 +260,20 @@ def cases(draw):
             if all(mk.values()) and prev >= d0:
                 cut = prev
                 labels.append('holiday_on_a_month_end_cut_the_day_before')
+    hol_cut = 'holiday_on_a_month_end_cut_the_day_before' in labels       # (that cut stays where it is)
+    if wk and not hol_cut and draw(st.booleans()):
+        # (with a seven-day vendor the cut often falls on a Friday: the first rows after it are weekend bars)
+        c_ = cut - D.timedelta(days=(cut.weekday() - 4) % 7)
+        if c_ >= d0:
+            cut = c_
+            labels.append('cut_on_a_friday_before_weekend_bars')
     if draw(st.sampled_from([False] * 7 + [True])):
         # an old-style market: every price sits on a quarter-point grid (whole numbers and quarters), adjusted closes at half
         mk = {s_: [r[:3] + [None if r[3] is None else max(0.25, round(r[3] * 4) / 4.0), None if r[4] is None else max(0.25, round(r[4] * 4) / 4.0),
                             None if r[4] is None or r[5] is None else max(0.25, round(r[4] * 4) / 4.0) * 0.5] for r in rows_] for s_, rows_ in mk.items()}
         labels.append('prices_on_a_quarter_point_grid')
     forced = None
-    if 'late_start_symbol' in labels and draw(st.sampled_from([False, True])):
+    if 'late_start_symbol' in labels and not hol_cut and draw(st.sampled_from([False, True])):
         # the cut falls before the late symbol's first bar and the future is removed altogether: in that world the
         # symbol has no file at all
         fd_ = market.first_date(mk[names[late_idx]])
@@ -293,6 +300,10 @@ def cases(draw):
             if rows and any(D.date(r[0], r[1], r[2]) < lo for r in rows):
                 mk[s] = rows
                 labels.append('suspended_across_the_cut')
+                if (cut - lo).days >= 8:
+                    labels.append('suspended_for_over_a_week_before_the_cut')
+                    if forced is None and draw(st.booleans()):
+                        forced = 'delete'          # ... and in the other world nothing of the symbol follows the cut
     mode_ = draw(st.sampled_from(['rewrite', 'rewrite', 'delete', 'mix', 'wild', 'blank']))
     return {'cfg': cfg, 'market': mk, 'cut': [cut.year, cut.month, cut.day], 'drop_file': draw(st.booleans()) or bool(forced),
             'extra_cols': draw(st.sampled_from([False, False, True])),
@@ -303,5 +314,5 @@ def cases(draw):
 
 
 PARTS = [
-    Part('pairs', 'hyp', run_case, strategy=cases(), quick=800, thorough=48000, quick_shards=8),
+    Part('pairs', 'hyp', run_case, strategy=cases(), quick=1280, thorough=48000, quick_shards=8),
 ]
